@@ -28,6 +28,10 @@ Rows == {
   \* string: any value to its %v string
   R("string", "str:hello", "hello"), R("string", "int:42", "42"), R("string", "bool:true", "true"),
   R("string", "float:1.5", "1.5"), R("string", "ints:1,2", "[1 2]"),
+  \* %v, not a hand-rolled formatter: large and small floats print in exponent form, times in Go's default layout
+  R("string", "float:1234567", "1.234567e+06"), R("string", "float:0.00001", "1e-05"), R("string", "float:1e21", "1e+21"),
+  R("string", "float:123456", "123456"), R("string", "float32:0.5", "0.5"), R("string", "int64:7", "7"), R("string", "bool:false", "false"),
+  R("string", "strs:b,a", "[b a]"), R("string", "time:native", "2020-01-02 03:04:05 +0000 UTC"),
   \* int / float from text and numbers (magnitudes are Tab_C18's business)
   R("int", "str:1", "1"), R("int", "str:-17", "-17"), R("int", "int:7", "7"), R("int", "int64:7", "7"), R("int", "int32:7", "7"),
   R("int", "float:7", "7"), R("int", "bool:true", "1"), R("int", "str:abc", "issue"), R("int", "str:1.5", "issue"),
@@ -47,6 +51,10 @@ Rows == {
   R("int+coercer:plus100", "int:7", "107"), R("int+coercer:plus100", "str:7", "107"),
   R("int-beside-coercer", "str:7", "7"),
   R("int+global:plus1000", "int:7", "1007"), R("int-after-global-restored", "int:7", "7"),
+  \* the sized schemas build on the same global coercers: an override is honoured by all of them
+  R("int64", "str:7", "7"), R("int32", "float:7", "7"), R("float32", "str:0.5", "0.5"),
+  R("int64+global:plus1000", "int:7", "1007"), R("int32+global:plus1000", "str:7", "1007"),
+  R("float+globalf:plus1000", "str:7", "1007"), R("float32+globalf:plus1000", "int:7", "1007"),
   R("slice-int+coercer:split", "str:3;1;2", "[3 1 2]") }
 
 \* the table is a function of (dest, src)
